@@ -68,7 +68,7 @@ TYPES = {
     "i8": (8, 1, "int"), "u8": (8, 1, "int"),
     "f2": (2, 1, "float"), "f4": (4, 1, "float"), "f8": (8, 1, "float"), "f16": (16, 1, "int"),
     "c8": (4, 2, "float"), "c16": (8, 2, "float"), "c32": (16, 2, "int"),
-    "S3": (1, 3, "bytes"), "U2": (4, 2, "ucs4"),
+    "S3": (1, 3, "bytes"), "U2": (4, 2, "ucs4"), "S2": (1, 2, "bytes"), "S4": (1, 4, "bytes"),
     # thorough only
     "S1": (1, 1, "bytes"), "S8": (1, 8, "bytes"), "U1": (4, 1, "ucs4"),
     "M8[s]": (8, 1, "int"), "m8[ns]": (8, 1, "int"), "V5": (1, 5, "bytes"),
@@ -506,6 +506,12 @@ def main(ctx):
         if 2 <= len(fs) <= ctx.pick(2, 3):
             specs.append((fs, "view"))
 
+    # tables whose columns ALL have the same item size, one of them a byte string of that width (strings have no byte
+    # order: a whole-buffer swap chosen by item size alone reverses them)
+    for fs in ((("id", "i4", ()), ("tag", "S4", ()), ("val", "f4", ())), (("a", "i2", ()), ("s", "S2", ())), (("s", "S2", ()), ("a", "u2", ()), ("h", "f2", ())),
+               (("x", "f8", ()), ("s", "S8", ()), ("k", "i8", ())), (("c", "c8", ()), ("s", "S4", ())), (("s", "S4", ()), ("m", "u4", (2,))),
+               (("s", "S8", ()), ("z", "c16", ()))):
+        specs.append((fs, False))
     units = []
     for code in plain_codes:
         for order in (">", "<"):
